@@ -58,7 +58,29 @@ class Ctx:
         """Run TLC on a spec config.  expect_violation=None: the run must pass (otherwise machinery
         error: the model and its declarative layer disagree and must be repaired).  Otherwise the named
         invariant must be violated (Mut_* / AsIs_* sensitivity configs)."""
-        r = run_tlc(module, cfg, **kw)
+        if expect_violation is None:
+            r = run_tlc(module, cfg, **kw)
+        else:
+            # a sensitivity config may list several invariants; with several workers TLC reports whichever it meets first.
+            # Only the expected one is checked (temporary copy of the config without the other INVARIANT / PROPERTY lines).
+            import tempfile
+            from .tlc import SPEC_DIR
+            keep = []
+            for line in open(os.path.join(SPEC_DIR, cfg)):
+                tok = line.split()
+                if tok and tok[0] in ("INVARIANT", "INVARIANTS", "PROPERTY", "PROPERTIES"):
+                    if expect_violation in tok[1:]:
+                        keep.append("%s %s\n" % (tok[0], expect_violation))
+                    continue
+                keep.append(line)
+            with tempfile.NamedTemporaryFile("w", suffix=".cfg", prefix="sens_", delete=False) as fh:
+                fh.write("".join(keep))
+                tmp_cfg = fh.name
+            try:
+                r = run_tlc(module, tmp_cfg, **kw)
+            finally:
+                os.unlink(tmp_cfg)
+            r.cfg = cfg
         entry = {"module": module, "cfg": cfg, "generated": r.generated, "distinct": r.distinct,
                  "depth": r.depth, "wall_s": round(r.wall_s, 1), "note": note}
         if expect_violation is None:
